@@ -16,7 +16,7 @@ func (p *pathCtx) choose(n int, name string) int {
 	if n <= 1 {
 		return 0
 	}
-	w := log2ceil(n)
+	w := log2ceil(n + 1) // the bound n itself must be representable at this width
 	if w < 8 {
 		w = 8
 	}
